@@ -11,7 +11,7 @@
 (* built result types are exercised too.  The state is the environment of  *)
 (* denotations; every step logs its exact expected dense value.            *)
 (***************************************************************************)
-EXTENDS LOAlgebra, Json
+EXTENDS LOAlgebra, Json, LORewrite
 
 CONSTANTS Tier, Seed, Part, NParts
 
@@ -137,7 +137,8 @@ Apply ==
   /\ LET f == desc.fam op == desc.op n == N b == desc.bp[1] IN
      CASE f = "bin" ->
             LET e == IF op = "add" THEN Al_Add(da, db) ELSE IF op = "sub" THEN Al_Sub(da, db) ELSE Al_MatMul(da, db)
-            IN r' = e /\ Log(op, <<>>, e)
+            \* (for +: the class the rewrite rules of LORewrite predict for the result; reported as drift only)
+            IN r' = e /\ Log(op, IF op = "add" THEN <<RW_AddOuter(ta, tb, TRUE)>> ELSE <<>>, e)
        [] f = "tens" ->
             LET T == TensOperand
                 e == CASE op = "add_t" -> Al_Add(da, T) [] op = "radd_t" -> Al_Add(T, da)
